@@ -254,7 +254,34 @@ func checkC04(sc *Scenario, t *Truth) []Violation {
 		}
 	}
 	// triggers: ends of exit_on_* carriers that were not caused by the project shutdown itself
-	cands := triggerCandidates(sc, t)
+	cands, firstTrigger := triggerCandidates(sc, t)
+	// "all other processes are shut down": once the shutdown a trigger started has sent its
+	// first signal, no command is launched anymore (unless somebody asks for it)
+	if firstTrigger < 1<<60 && sc.Strategy.StallPermille == 0 {
+		firstKill := -1
+		for i := firstTrigger; i < len(t.Events); i++ {
+			if t.Events[i].Kind == "os.kill" {
+				firstKill = i
+				break
+			}
+		}
+		if firstKill >= 0 {
+			for _, in := range t.Insts {
+				// the launch decision is the status change that precedes the exec (a command whose
+				// launch was already under way when the shutdown began is stopped afterwards)
+				gate := -1
+				for _, tr := range t.Trans[in.Replica] {
+					if tr.Seq < in.ExecSeq && (tr.State == "Running" || tr.State == "Launching") {
+						gate = tr.Seq
+					}
+				}
+				if in.Kind == "simproc" && gate > firstKill && !t.explicitStartCovering(in.Replica, 0, in.ExecSeq+1) {
+					vs = append(vs, Violation{"C04", "launched-during-triggered-shutdown", "", fmt.Sprintf("%s was launched at seq %d (t=%v) although an exit_on_* trigger had started the project shutdown (first stop signal at seq %d)", in.Replica, in.ExecSeq, in.ExecT, firstKill), in.ExecSeq})
+					break
+				}
+			}
+		}
+	}
 	if t.RunRet >= 0 {
 		if len(cands) == 0 {
 			if t.RunCode != 0 {
@@ -504,13 +531,14 @@ func countDependents(sc *Scenario, dep string, live map[string]*Inst) int {
 // the project shutdown itself, and 1 for a skipped exit_on_skipped carrier or a carrier
 // that failed to start. An end is attributed to the shutdown when the fatal signal was
 // sent after the first trigger (or after an explicit shutdown request).
-func triggerCandidates(sc *Scenario, t *Truth) map[int]string {
+func triggerCandidates(sc *Scenario, t *Truth) (map[int]string, int) {
 	type ev struct {
 		seq     int
 		code    int
 		who     string
 		kill    int  // seq of the fatal signal, -1 for a script exit
 		certain bool // this end certainly triggers a shutdown (no restart can follow)
+		skipOf  *ProcSpec // for a skip: the process that was skipped
 	}
 	var evs []ev
 	for rep, insts := range t.ByRep {
@@ -540,9 +568,9 @@ func triggerCandidates(sc *Scenario, t *Truth) map[int]string {
 				}
 			}
 			if p.Restart == "exit_on_failure" && in.Code != 0 {
-				evs = append(evs, ev{when, in.Code, rep + " (exit_on_failure)", kill, true})
+				evs = append(evs, ev{when, in.Code, rep + " (exit_on_failure)", kill, true, nil})
 			} else if p.ExitOnEnd {
-				evs = append(evs, ev{when, in.Code, rep + " (exit_on_end)", kill, !restartOwed(p, in.Code, i)})
+				evs = append(evs, ev{when, in.Code, rep + " (exit_on_end)", kill, !restartOwed(p, in.Code, i), nil})
 			}
 		}
 	}
@@ -553,10 +581,10 @@ func triggerCandidates(sc *Scenario, t *Truth) map[int]string {
 		}
 		for _, tr := range trs {
 			if tr.State == "Skipped" && p.ExitOnSkipped {
-				evs = append(evs, ev{tr.Seq, 1, rep + " (exit_on_skipped)", -1, true})
+				evs = append(evs, ev{tr.Seq, 1, rep + " (exit_on_skipped)", -1, true, p})
 			}
 			if tr.State == "Error" && (p.ExitOnEnd || p.Restart == "exit_on_failure") {
-				evs = append(evs, ev{tr.Seq, 1, rep + " (failed to start)", -1, true})
+				evs = append(evs, ev{tr.Seq, 1, rep + " (failed to start)", -1, true, nil})
 			}
 		}
 	}
@@ -572,12 +600,35 @@ func triggerCandidates(sc *Scenario, t *Truth) map[int]string {
 		if e.kill >= 0 && e.kill > first {
 			continue // terminated by the shutdown
 		}
+		if e.skipOf != nil && e.seq > first {
+			// skipped because the shutdown terminated one of its dependencies: a consequence
+			// of the shutdown, not a trigger
+			caused := false
+			for d := range e.skipOf.DependsOn {
+				dp := sc.Project.Proc(d)
+				if dp == nil {
+					continue
+				}
+				for _, rn := range ReplicaNames(dp.Name, dp.Replicas) {
+					for _, in := range t.ByRep[rn] {
+						for _, k := range in.Kills {
+							if k.Seq > first && k.Seq < e.seq {
+								caused = true
+							}
+						}
+					}
+				}
+			}
+			if caused {
+				continue
+			}
+		}
 		cands[e.code] = e.who
 		if e.certain && e.seq < first {
 			first = e.seq
 		}
 	}
-	return cands
+	return cands, first
 }
 
 func statusSet(xs []string) string {
